@@ -201,6 +201,28 @@ class ChainBuild(Suite):
                         'ctx/b.json': {'y': 9}},
                  base={'name': 'm', 'data': {'tasks': ['@M.*'], 'uses': ['first.json as ns', 'second.json as ns2']}},
                  context={'file': 'ctx/top.json'}),
+            # a Meta that carries `abstract = False`: the task is declared, not abstract
+            dict(classes=[dict(K(0, 'Base', abstract=True), name='base'), dict(K(1, 'Concrete', abstract=False), name='concrete'),
+                          dict(K(2, 'Dep', meta_inputs=[{'cls': 1}]), name='dep')],
+                 files={}, base={'name': 'm', 'data': {'tasks': ['@M.*']}}, context=None),
+            # a dependant inside a namespace names an input of a nested namespace by its full name
+            dict(classes=[dict(K(0, 'A'), name='a'), dict(K(1, 'Dep', meta_inputs=[{'name': 'n::m::a'}]), name='dep')],
+                 files={'inner.json': {'tasks': ['@M.A']}, 'outer.json': {'tasks': ['@M.Dep'], 'uses': 'inner.json as m'}},
+                 base={'name': 'top', 'data': {'uses': 'outer.json as n'}}, context=None),
+            # one part of a multi-config file mounted under two namespaces, a per-namespace context entry for one of them
+            dict(classes=[dict(K(0, 'Scale', params=[P('factor'), P('nested')]), name='scale')],
+                 files={'multi.json': {'configs': {'main': {'uses': ['#model as a', '#model as b'], 'main_part': True},
+                                                   'model': {'tasks': ['@M.*'], 'factor': 1, 'nested': {'k': [1]}}}}},
+                 base={'file': 'multi.json'}, context={'dict': {'for_namespaces': {'a': {'factor': 5, 'nested': {'k': [9]}}}}}),
+            # the same pattern input in two namespaces whose matching tasks differ
+            dict(classes=[dict(K(0, 'X1'), name='x1'), dict(K(1, 'X2'), name='x2'), dict(K(2, 'X3'), name='x3'),
+                          dict(K(3, 'Collect', meta_inputs=[{'name': '~x.*'}]), name='collect')],
+                 files={'more.json': {'tasks': ['@M.*']}},
+                 base={'name': 'm', 'data': {'tasks': ['@M.X1', '@M.X2', '@M.Collect'], 'uses': 'more.json as a'}}, context=None),
+            dict(classes=[dict(K(0, 'X1'), name='x1'), dict(K(1, 'X2'), name='x2'), dict(K(2, 'X3'), name='x3'),
+                          dict(K(3, 'Collect', meta_inputs=[{'name': '~x.*'}]), name='collect')],
+                 files={'less.json': {'tasks': ['@M.X1', '@M.Collect']}},
+                 base={'name': 'm', 'data': {'tasks': ['@M.*'], 'uses': 'less.json as a'}}, context=None),
             # an import string names exactly one class, also when another class of the module has that name as a prefix
             dict(classes=[K(0, 'Ab'), K(1, 'A'), K(2, 'Abc')], files={}, base={'name': 'm', 'data': {'tasks': ['@M.A']}}, context=None),
             dict(classes=[K(0, 'Ab'), K(1, 'A'), K(2, 'Abc')], files={},
